@@ -33,7 +33,7 @@ METSYMS = ['*met(c)', '*met(c|)', '*met(C)', '*met(O)', '*met(C|)', '*met(O.)', 
 KEYS = ['*C:', '*a:', '*G:', '*e:', '*F:', '*d:', '*B-:', '*f#:', '*E-:', '*c#:', '*?:', '*C:dor', '*d:dor', '*C/a:']
 METRONOMES = ['*MM120', '*MM60', '*MM96', '*MM132', '*MM72.5']
 STAFFS = ['*staff1', '*staff2', '*staff3', '*staff1/2', '*staff+1']
-INSTRUMENTS = ['*Ipiano', '*Ivioln', '*I"Piano', '*Icemba', '*Iflt', '*I"Soprano', '*mI"Voice']
+INSTRUMENTS = ['*Ipiano', '*Ivioln', '*I"Piano', '*Icemba', '*Iflt', '*I"Soprano', '*mI"Voice', '*I"Órgano', '*Iñu 2']
 SECTIONS = ['*>A', '*>B', '*>[A,B]', '*>norep[A,B]', '*>1st ending', '*>A1']
 OTHER_TANDEMS = ['*tb8', '*tb16', '*part1', '*group1', '*lh', '*rh', '*above', '*below', '*below2', '*centered', '*ped', '*Xped',
                  '*8va', '*X8va', '*8ba', '*Trd1c2', '*ITrd-1c-2', '*rscale:2', '*rscale:1/2', '*cue', '*Xcue', '*tuplet', '*Xtuplet',
@@ -143,7 +143,7 @@ def gen_duration(rng, F):
         return '', {'dur': '', 'dots': 0, 'grace': ''}
     base = rng.choice(RATIONAL_DURS) if kind == 'rational' else rng.choice(PLAIN_DURS)
     dots = rng.choice([1, 1, 2]) if kind == 'dotted' else 0
-    grace = 'q' if kind == 'grace' else rng.choice(['p', 'P']) if kind == 'appog' else ''
+    grace = rng.choice(['q', 'q', 'qq']) if kind == 'grace' else rng.choice(['p', 'P']) if kind == 'appog' else ''
     return base + '.' * dots + grace, {'dur': base, 'dots': dots, 'grace': grace}
 
 
@@ -369,6 +369,8 @@ def gen_doc(rng: random.Random, F: dict | None = None, max_spines=4, max_rows=25
     def bar_row(final=False):
         nonlocal measure_no, produced_measures
         num = str(measure_no) if (F['measure_numbers'] and rng.random() < 0.8 and not final) else ''
+        if num and rng.random() < 0.06:
+            num += rng.choice(['a', 'b'])          # barline: number (a? b?)
         typ = rng.choice(BARLINE_TYPES) if not final else ''
         hidden = '-' if (F['hidden_barlines'] and rng.random() < 0.08 and not final) else ''
         extra = rng.choice(['', '', '', '', ';']) if typ in ('', '||') and not hidden else ''
